@@ -124,7 +124,7 @@ POSITIONS = {
 }
 ALIAS_POSITIONS = {
     'alias-from-disjunctive-trigger': 'globally: (s as A or u) causes t { %s }',
-    'alias-from-disjunctive-activator': 'after (u or s as A {x_o > 0}): no t { %s }',
+    'alias-from-disjunctive-activator': 'after (u or s as A): no t { %s }',
     'alias-from-activator': 'after s as A: no t { %s }',
     'alias-from-trigger': 'globally: s as A causes t { %s }',
     'alias-in-terminator': 'after s as A until t { %s }: no u',
